@@ -132,7 +132,7 @@ def check(ctx, rep, rule):
         if cst.endswith('Params::DEF_IMSAAK_ANGLE'):
             DEF = cst
     if eng.incomplete:
-        rep.ob('engine', 'incomplete-imsaak', False, str(eng.incomplete[:2]))
+        rep.ob('engine', 'incomplete-imsaak', None, str(eng.incomplete[:2]))
     iF, iI = mg('intervals', 'Fajr', ctx), mg('intervals', 'Imsaak', ctx)
     mF, aF, aI = mg('minutes', 'Fajr', ctx), mg('angles', 'Fajr', ctx), mg('angles', 'Imsaak', ctx)
     import itertools
@@ -145,13 +145,10 @@ def check(ctx, rep, rule):
         # the branches of the builder have been joined: split again on the conditions that select the values
         conds = []
         for v in mods0.values():
-            st = [v]
-            while st:
-                x = st.pop()
+            for x in subterms(v):
                 if isinstance(x, tuple) and x and x[0] == 'ite':
                     if x[1] not in conds and x[1] not in asm0:
                         conds.append(x[1])
-                    st += [x[2], x[3]]
         for bits in itertools.product([True, False], repeat=len(conds)):
             asm = dict(asm0)
             asm.update(dict(zip(conds, bits)))
